@@ -23,22 +23,35 @@ def check(formulas, timeout_s=20, want_model=False, tag=''):
     t0 = time.time()
     STATS['queries'] += 1
     s = z3.Solver()
-    s.set('timeout', int(timeout_s * 1000))
+    quick = min(2.0, timeout_s)
+    s.set('timeout', int(quick * 1000))
     for f in formulas:
         s.add(f)
     r = s.check()
     backend = 'z3'
     res = str(r)
     model = None
+    if r == z3.unknown:
+        # non-linear real arithmetic under uninterpreted functions: nlsat after Ackermann
+        res2, be2 = _ackermann_nlsat(formulas, timeout_s)
+        if res2 == 'unsat':
+            STATS[be2] += 1
+            STATS['time_s'] += time.time() - t0
+            return 'unsat', None, be2
+        if timeout_s > quick:
+            s = z3.Solver()          # a fresh solver: a second check() would be incremental
+            s.set('timeout', int(timeout_s * 1000))
+            for f in formulas:
+                s.add(f)
+            r = s.check()
+            res = str(r)
     if r == z3.sat:
         model = s.model() if want_model else None
         STATS['z3'] += 1
     elif r == z3.unsat:
         STATS['z3'] += 1
     else:
-        res2, be2 = _ackermann_nlsat(formulas, timeout_s)
-        if res2 != 'unsat':
-            res2, be2 = _external(s, timeout_s * 3, tag)
+        res2, be2 = _external(s, timeout_s * 3, tag)
         if res2 in ('sat', 'unsat'):
             res, backend = res2, be2
             STATS[be2 if be2 in STATS else 'cvc5'] += 1
